@@ -23,7 +23,35 @@ def nontrivial(chk, st, rid, evs):
         chk.nontrivial("g%s" % rid)
 
 
+def bisect_model(chk):
+    """Implementation layer: the bisection rule of the rough legalizer transcribed as pure operators; TLC checks its design properties on
+    every small instance and every instance is replayed into the real functions (exposed by the COLOQUINTE_VERIF hook)."""
+    import json
+    cfg = "BisectImpl_" + chk.tier
+    d = vlib.scratch("C16-bisect")
+    out = os.path.join(d, "cases.out")
+    res = vlib.tlc_ok(vlib.tlc("BisectImpl", cfg=cfg, workers=16, stdout_path=out, timeout=3000, xmx="16g"), cfg)
+    if res["violated"]:
+        raise vlib.FrameworkError("BisectImpl violates its own invariants: %s" % res["violated"])
+    chk.add_tlc(res, "tlc bisection rule (threshold split, stable when nothing overflows, boundary moves away from the overflow, larger overflow never grows, "
+                     "no dumping into a bin without capacity, a fit is found when one exists)")
+    exe = vlib.build_exe("asan-ubsan", "replay")
+    rc, so, se = vlib.run_exe(exe, stdin_path=out, timeout=3000)
+    if rc != 0:
+        chk.violation("the real split functions died on the instances of the bisection model (rc=%s): %s" % (rc, (se or "")[-600:]),
+                      {"kind": "cases", "module": "BisectImpl", "cfg": cfg}, "replay-crash")
+        shutil.rmtree(d, ignore_errors=True)
+        return
+    summ = [json.loads(l) for l in so.splitlines() if l.startswith("{") and '"summary"' in l]
+    if not summ or summ[0]["impl_seen"] == 0:
+        raise vlib.FrameworkError("no BisectImpl instance was replayed")
+    chk.cov.setdefault("impl_conformance", {})[cfg] = {"instances": summ[0]["impl_seen"], "real_split_equals_model": summ[0]["impl_same"]}
+    chk.step("real findIdealSplitPos/findConstrainedSplitPos == transcription", instances=summ[0]["impl_seen"], conformant=summ[0]["impl_same"])
+    shutil.rmtree(d, ignore_errors=True)
+
+
 def run(chk):
+    bisect_model(chk)
     cfg = "DensityHier_" + chk.tier
     d = vlib.scratch("C16-emit")
     out = os.path.join(d, "cases.out")
